@@ -2,6 +2,7 @@ package writecache
 
 import (
 	storagelog "github.com/nspcc-dev/neofs-node/pkg/local_object_storage/internal/log"
+	"github.com/nspcc-dev/neofs-node/pkg/util/verifhook"
 	oid "github.com/nspcc-dev/neofs-sdk-go/object/id"
 )
 
@@ -21,6 +22,7 @@ func (c *cache) Delete(addr oid.Address) error {
 func (c *cache) delete(addr oid.Address) error {
 	err := c.fsTree.Delete(addr)
 	if err == nil {
+		verifhook.Point("writecache.delete.afterFS", c.path, addr)
 		storagelog.Write(c.log,
 			storagelog.AddressField(addr),
 			storagelog.StorageTypeField(wcStorageType),
